@@ -8,6 +8,7 @@ CD = "elexmodel.handlers.data.CombinedData"
 SELF = ("param", "self")
 DATA = ("attr", SELF, "data")
 CUR = ("attr", SELF, "current_data")
+PRE = ("attr", SELF, "preprocessed_data")
 
 
 class UnitSplit:
@@ -32,7 +33,7 @@ class UnitSplit:
                 return t[2][0], f"outlier:{t[2][1][1]}", f"flagged by the outlier model on {t[2][1][1]}"
             return None
 
-        self.rs = rs.RowSets({DATA: "inData", CUR: "inFeed"}, opaque)
+        self.rs = rs.RowSets({DATA: "inData", CUR: "inFeed", PRE: "inBaseline"}, opaque)
         self.fR = self.rs.member(self.R)
         self.fN = self.rs.member(self.N)
         self.fU = self.rs.member(self.U)
